@@ -9,7 +9,7 @@ from ..cfg import own_exprs
 from ..facts import Fact, atoms, enumerate_paths
 from ..report import Ctx
 from ..suspend import StaleTime, event_class_names, node_suspension
-from .common import always_before, expand, increment_of, need, node_of, single_defs, stmts_matching
+from .common import always_before, expand, filtered_copy, increment_of, need, node_of, single_defs, stmts_matching
 
 MQ = "happysimulator/components/messaging/message_queue.py"
 DLQ = "happysimulator/components/messaging/dlq.py"
@@ -328,12 +328,13 @@ def rule_topic(ctx: Ctx) -> None:
     t = prog.cls(TOPIC, "Topic")
     pub = t.methods["publish"]
     pf = ctx.flow(pub)
-    snap = [s for s in walk_stmts(pub.node.body) if isinstance(s, ast.Assign) and path_of(s.targets[0]) == "active_subscribers"]
-    ok = len(snap) == 1 and isinstance(snap[0].value, ast.ListComp) and unparse(snap[0].value.generators[0].iter) == "self._subscriptions.values()" and [unparse(i) for i in snap[0].value.generators[0].ifs] == ["sub.active"]
+    # the snapshot, however written (comprehension, or a fresh list filled by one loop under one `if`): the active subscriptions
+    involved, snap_st, sigs = filtered_copy(pub, "active_subscribers", "self._subscriptions.values()")
+    ok = sigs == frozenset({("truthy", "E.active", "")})
     susp = [n for n in pf.cfg.nodes if n.kind == "stmt" and node_suspension(prog, pub, n)]
-    ok = ok and bool(susp) and all(not always_before(ctx, pub, lambda x: x.ast is snap[0], lambda x, s=s: x is s) for s in susp)
-    ctx.ob("C19-4", "G5", pub, snap[0] if snap else None, ok, "Topic.publish snapshots the subscribers active at publish time before its first suspension")
-    loops = [s for s in pub.node.body if isinstance(s, ast.For)]
+    ok = ok and bool(susp) and all(not always_before(ctx, pub, lambda x, i=i: x.ast is i, lambda x, s=s: x is s) for s in susp for i in involved)
+    ctx.ob("C19-4", "G5", pub, snap_st, ok, "Topic.publish snapshots the subscribers active at publish time before its first suspension")
+    loops = [s for s in pub.node.body if isinstance(s, ast.For) and not any(s is i for i in involved)]
     okl = len(loops) == 2 and all(path_of(l.iter) == "active_subscribers" for l in loops)
     evl = [l for l in loops if any(path_of(c.func) == "Event" for c in calls_in(l))]
     ok = okl and len(evl) == 1
